@@ -46,49 +46,7 @@ def run(ctx):
     ctx.note("square_clustering has no error channel and cannot refuse; recorded, not alarmed")
 
     # ------------------------------------------------------------------ R-C11-2
-    ctx.rule("R-C11-2", "no unwrapped lookup in a neighbour map whose key domain is a caller-chosen subset")
-    gn = prog.one("utility::get_neighbors_of_nodes")
-    n_maps = 0
-    for p in sorted(prog.bodies):
-        b = prog.bodies[p]
-        if "cluster" not in b.short:
-            continue
-        fl = flows.of(b)
-        for s in enumerate_sites(b):
-            if s.kind != "unwrap":
-                continue
-            oc = origin_call(fl, s.operand)
-            if oc is None or not oc.callee or not oc.callee.short.endswith("HashMap::get") or len(oc.args) < 2:
-                continue
-            # provenance of the map
-            sl = flows.slice(b.path, fl._op_reads(oc.args[0]), up=True, down=False, data_only=True, skip_captures=False)
-            producers = []
-            for (bp, n_) in sl:
-                if n_[0] == "CALL":
-                    t = prog.bodies[bp].blocks[n_[1]].term
-                    if t.callee and t.callee.target_path(prog) == gn.path:
-                        producers.append((bp, t))
-            if not producers:
-                continue
-            n_maps += 1
-            s.origin = origin_of(fl, s)
-            restricted = []
-            for (bp, t) in producers:
-                d = norm(flows.of(bp).describe(t.args[0], depth=8))
-                is_none = (d[0] == "adt" and d[1].endswith("Option::None")) or (d[0] == "const" and "None" in d[1])
-                if not is_none:
-                    restricted.append((bp, t, fmt_desc(d)))
-            key = "%s|%s" % (b.short, panic.shape_str(s.origin))
-            o = s.origin
-            guard = existence_guard(fl, s, o[2][0], o[2][1]) if isinstance(o, tuple) and o[0] == "call" and len(o[2]) >= 2 else None
-            if not restricted:
-                ctx.ok("R-C11-2", key, "map looked up in %s is built for ALL nodes (get_neighbors_of_nodes(None, ..) at %s)" % (b.short.split("::", 2)[-1], ", ".join(loc_str(t.span) for (_, t) in producers)), s.site())
-            elif guard:
-                ctx.ok("R-C11-2", key, "subset-restricted map, lookup guarded: " + guard, s.site())
-            else:
-                bp, t, d = restricted[0]
-                ctx.violation("R-C11-2", key, "unwrap of %s in %s: the map comes from get_neighbors_of_nodes(%s, ..) at %s, so its keys are the caller's subset, but it is indexed by neighbours that need not be in the subset (panics for a proper subset)" % (norm_str(o), b.short, d, loc_str(t.span)), s.site())
-    ctx.floor("R-C11-2", "neighbour_map_lookups", n_maps, 1)
+    subset_keyed_map_lookups(ctx, prog, flows, "R-C11-2")
 
     # ------------------------------------------------------------------ R-C11-4
     ctx.rule("R-C11-4", "self-loops never count: in the clustering kernels every operand of a neighbour-set intersection has had its own node removed (without / get_adjacent_nodes_without / difference)")
@@ -332,6 +290,20 @@ def run(ctx):
                         cal_.add(tt_.callee.short.split("::")[-1])
                 elif nd_[0] in ("L", "LF") and isinstance(nd_[1], int) and 1 <= nd_[1] <= bb_.arg_count and bb_.local_name(nd_[1]) == "node_names":
                     subset_ = True
+            # "normalised by the LARGEST WEIGHT": a maximum seeded with a positive constant (`fold(1.0, f64::max)`) is
+            # max(1, largest weight) -- the constant meant for the edgeless graph takes part in every maximum
+            for (bp_, nd_) in sl_:
+                if nd_[0] != "CALL":
+                    continue
+                bb_ = prog.bodies[bp_]
+                tt_ = bb_.blocks[nd_[1]].term
+                if tt_.callee and tt_.callee.short.split("::")[-1] == "fold" and len(tt_.args) >= 3:
+                    import re as _re
+
+                    di_ = norm(flows.of(bb_).describe(tt_.args[1], depth=6))
+                    m_ = _re.match(r"(?:const )?(-?\d+(?:\.\d+)?(?:[eE][-+]?\d+)?)_?f64$", di_[1].strip()) if isinstance(di_, tuple) and di_[0] == "const" else None
+                    if m_ and float(m_.group(1)) > 0.0:
+                        ctx.violation("R-C11-7", "normaliser-seed|%s" % bb_.short, "the largest-weight reduction in %s starts from the constant %s: when every weight of the graph is below it the coefficients are divided by %s instead of by the largest weight, so they come out too small by that factor" % (bb_.short, m_.group(1), m_.group(1)), loc_str(tt_.span))
             other_ = sorted(cal_ & {"get_edges_for_nodes", "get_edges_for_node", "get_out_edges_for_node", "get_in_edges_for_node", "get_out_edges_for_nodes", "get_in_edges_for_nodes", "get_edge", "get_edges", "get_subgraph"})
             ctx.require("get_all_edges" in cal_ and not other_ and not subset_, "R-C11-7", "normaliser|%s" % b_.short, "the normaliser in %s is the largest weight of get_all_edges()" % b_.short.split("::", 2)[-1],
                         "the weight normaliser used in %s derives from %s%s instead of get_all_edges() alone: a coefficient computed for a subset differs from the same node's value in the full computation (and can exceed 1)" % (b_.short, other_ or sorted(cal_)[:4], " and from node_names" if subset_ else ""), loc_str(t_.span))
@@ -479,3 +451,50 @@ def counted_coefficients(ctx, prog, flows):
             ctx.require(ok, "R-C11-11", "zero-test|%s|%d" % (b.short.split("::", 3)[-1], n), "the coefficient is compared with 0",
                         "average_clustering compares a coefficient with %s instead of 0: a positive coefficient below that threshold (weighted coefficients are divided by the largest weight in the graph) is dropped from the mean although it is not zero" % consts, loc_str(st.span))
     ctx.floor("R-C11-11", "coefficient_tests", n, 1)
+
+
+def subset_keyed_map_lookups(ctx, prog, flows, rid):
+    """shared by C11 (subset restriction) and C20 (valid calls never panic)"""
+    ctx.rule(rid, "no unwrapped lookup in a neighbour map whose key domain is a caller-chosen subset")
+    gn = prog.one("utility::get_neighbors_of_nodes")
+    n_maps = 0
+    for p in sorted(prog.bodies):
+        b = prog.bodies[p]
+        if "cluster" not in b.short:
+            continue
+        fl = flows.of(b)
+        for s in enumerate_sites(b):
+            if s.kind != "unwrap":
+                continue
+            oc = origin_call(fl, s.operand)
+            if oc is None or not oc.callee or not oc.callee.short.endswith("HashMap::get") or len(oc.args) < 2:
+                continue
+            # provenance of the map
+            sl = flows.slice(b.path, fl._op_reads(oc.args[0]), up=True, down=False, data_only=True, skip_captures=False)
+            producers = []
+            for (bp, n_) in sl:
+                if n_[0] == "CALL":
+                    t = prog.bodies[bp].blocks[n_[1]].term
+                    if t.callee and t.callee.target_path(prog) == gn.path:
+                        producers.append((bp, t))
+            if not producers:
+                continue
+            n_maps += 1
+            s.origin = origin_of(fl, s)
+            restricted = []
+            for (bp, t) in producers:
+                d = norm(flows.of(bp).describe(t.args[0], depth=8))
+                is_none = (d[0] == "adt" and d[1].endswith("Option::None")) or (d[0] == "const" and "None" in d[1])
+                if not is_none:
+                    restricted.append((bp, t, fmt_desc(d)))
+            key = "%s|%s" % (b.short, panic.shape_str(s.origin))
+            o = s.origin
+            guard = existence_guard(fl, s, o[2][0], o[2][1]) if isinstance(o, tuple) and o[0] == "call" and len(o[2]) >= 2 else None
+            if not restricted:
+                ctx.ok(rid, key, "map looked up in %s is built for ALL nodes (get_neighbors_of_nodes(None, ..) at %s)" % (b.short.split("::", 2)[-1], ", ".join(loc_str(t.span) for (_, t) in producers)), s.site())
+            elif guard:
+                ctx.ok(rid, key, "subset-restricted map, lookup guarded: " + guard, s.site())
+            else:
+                bp, t, d = restricted[0]
+                ctx.violation(rid, key, "unwrap of %s in %s: the map comes from get_neighbors_of_nodes(%s, ..) at %s, so its keys are the caller's subset, but it is indexed by neighbours that need not be in the subset (panics for a proper subset)" % (norm_str(o), b.short, d, loc_str(t.span)), s.site())
+    ctx.floor(rid, "neighbour_map_lookups", n_maps, 1)
